@@ -30,9 +30,12 @@ RULE = (
     "unformat_identifiers of the result; unformat_identifiers on ALL strings of length <= 4 over "
     "{initial quote, final quote, '.', newline, 'a'} and random ones; the spec-side backend lexer against "
     "the live SQLite (CREATE TABLE <text> / INSERT / SELECT / sqlite_master, then as column name + PRAGMA "
-    "table_info); on SQLite: attach a schema, create a table, a column and an index all called <name>, insert, "
-    "select, reflect with Inspector (get_schema_names/get_table_names/get_columns/get_indexes); a UNIQUE "
-    "constraint called <name> + get_unique_constraints (oracle only, no model).  non-trivial = the name needs "
+    "table_info); DDLCompiler._prepared_index_name for schema-qualified index names and the SQLite CREATE INDEX / "
+    "DROP INDEX text; on SQLite: ATTACH an in-memory database as schema <name>, create a table, a column and an "
+    "index all called <name>, insert, select, reflect with Inspector (get_schema_names/get_table_names/"
+    "get_columns/get_indexes), drop; in a second connection a table in schema <name> with an index and a unique "
+    "constraint called <name>: CREATE INDEX schema.index, reflect, DROP INDEX schema.index, DROP TABLE; a UNIQUE "
+    "constraint called <name> in schema <name> + get_unique_constraints (oracle only, no model).  non-trivial = the name needs "
     "quoting or escaping, or the text contains a quote character or a dot"
 )
 TRUSTED = [
@@ -66,6 +69,15 @@ ANCHORS = [
     ("lib/sqlalchemy/sql/compiler.py", "IdentifierPreparer.quote"),
     ("lib/sqlalchemy/sql/compiler.py", "IdentifierPreparer.format_table"),
     ("lib/sqlalchemy/sql/compiler.py", "IdentifierPreparer.format_column"),
+    ("lib/sqlalchemy/sql/compiler.py", "IdentifierPreparer.format_schema"),
+    ("lib/sqlalchemy/sql/compiler.py", "IdentifierPreparer.format_index"),
+    ("lib/sqlalchemy/sql/compiler.py", "IdentifierPreparer.format_constraint"),
+    ("lib/sqlalchemy/sql/compiler.py", "IdentifierPreparer.truncate_and_render_index_name"),
+    ("lib/sqlalchemy/sql/compiler.py", "IdentifierPreparer._truncate_and_render_maxlen_name"),
+    ("lib/sqlalchemy/sql/compiler.py", "DDLCompiler._prepared_index_name"),
+    ("lib/sqlalchemy/sql/compiler.py", "DDLCompiler.visit_create_index"),
+    ("lib/sqlalchemy/sql/compiler.py", "DDLCompiler.visit_drop_index"),
+    ("lib/sqlalchemy/dialects/sqlite/base.py", "SQLiteDDLCompiler.visit_create_index"),
     ("lib/sqlalchemy/sql/compiler.py", "IdentifierPreparer._r_identifiers"),
     ("lib/sqlalchemy/sql/compiler.py", "IdentifierPreparer.unformat_identifiers"),
     ("lib/sqlalchemy/dialects/mssql/base.py", "MSIdentifierPreparer._escape_identifier"),
@@ -703,7 +715,10 @@ def gen_cases(rng, tier):
         words = _words(tabs, dname)
         iq, fq = _QUOTES[dname]
         # A. every reserved word of the dialect, plus case / newline variants of a sample
+        mysql_words = set(_words(tabs, "mysql")) if dname == "mariadb" and not thorough else set()
         for k, w in enumerate(words):
+            if w in mysql_words:
+                continue  # quick tier: same table entry as for mysql
             add([0, d, _S(w), 0], "reserved")
             if k % 10 == 0 or thorough:
                 add([0, d, _S(w.upper()), 0], "reserved-variant")
@@ -738,12 +753,32 @@ def gen_cases(rng, tier):
             if sch and rng.random() < 0.03:
                 sch = [[]]
             add([1, d, sch, _S(t), _S(c)], "format")
+        # D2. DDLCompiler._prepared_index_name (schema-qualified index names), SQLite CREATE/DROP INDEX text
+        for k in range(nrand):
+            iname = _rand_name(rng, dname, words, 6)
+            if rng.random() < 0.03:
+                iname = ""
+            if dname == "mssql" or rng.random() < 0.15:
+                sch = []
+            elif rng.random() < 0.04:
+                sch = [[]]
+            else:
+                sch = [_S(_rand_name(rng, dname, words, 6))]
+            add([7, d, sch, _S(iname)], "index-name")
+            if dname == "sqlite" and iname:
+                add([8, d, sch, _S(_rand_name(rng, dname, words, 5)), _S(iname)], "index-ddl")
+        for k, w in enumerate(words):
+            if dname != "mssql" and (k % 8 == 0 or thorough):
+                add([7, d, [_S(w)], _S(w)], "index-name")
+        if dname != "mssql":
+            for s_ in _strings_upto([fq, ".", "%", " ", "a", "A"], 2)[1:]:
+                add([7, d, [_S(s_)], _S("i" + s_)], "index-name")
         # E. unformat_identifiers on arbitrary text
         alpha = sorted({iq, fq, ".", "\n", "a"})
         if dname in ("sqlite", "mssql") or thorough:
-            for s in _strings_upto(alpha, 5 if thorough and dname in ("sqlite", "mssql") else 4):
+            for s in _strings_upto(alpha, 5 if thorough and dname in ("sqlite", "mssql") else (3 if dname == "mssql" and not thorough else 4)):
                 add([2, d, _S(s)], "unformat-small")
-        for _ in range(nrand):
+        for _ in range(nrand if thorough else nrand // 2):
             a = alpha * 3 + ["%", "b", " ", '"', "]"]
             add([2, d, _S("".join(rng.choice(a) for _ in range(rng.randint(1, 12))))], "unformat-random")
         # F. spec-side lexer (live SQLite for d = 0, reference lexer otherwise)
@@ -808,7 +843,11 @@ def search_cases(rng, tier):
                 add([0, d, _S(s), 0], "search-small")
                 add([0, d, _S(s), 1], "search-small")
                 add([1, d, [] if dname == "mssql" else [_S(s)], _S("t"), _S(s)], "search-small")
+                if dname != "mssql":
+                    add([7, d, [_S(s)], _S("i" + s)], "search-small")
         for _ in range(300):
+            if dname != "mssql":
+                add([7, d, [_S(_rand_name(rng, dname, words, 5))], _S(_rand_name(rng, dname, words, 5))], "search-index")
             add([0, d, _S(_rand_name(rng, dname, words)), rng.choice([0, 0, 1])], "search-random")
             sch = [] if dname == "mssql" or rng.random() < 0.3 else [_S(_rand_name(rng, dname, words, 5))]
             add([1, d, sch, _S(_rand_name(rng, dname, words, 5)), _S(_rand_name(rng, dname, words, 5))], "search-random")
@@ -833,6 +872,8 @@ def nontrivial(c):
         return bool(s) and (not re.fullmatch(r"[a-z_][a-z0-9_$]*", s) or c.get("kind", "").startswith(("reserved", "sqlite-k")))
     if op == 1:
         return any(set(_U(x)) & special for x in [t[3], t[4]] + list(t[2]))
+    if op in (7, 8):
+        return bool(t[2]) and any(not re.fullmatch(r"[a-z_][a-z0-9_$]*", _U(x)) for x in list(t[2]) + [t[-1]])
     return bool(set(_U(t[2])) & special)
 
 
@@ -878,6 +919,40 @@ def ref_lex(dname, text, kw):
             return None
         return {"FoldNone": s, "FoldLower": _ascii_lower(s), "FoldUpper": _ascii_upper(s)}[fold]
     return None
+
+
+def ref_lex_path(dname, text, kw):
+    """a dotted path of identifiers as the backend reads it: list of stored names, or None"""
+    iq, fq = _QUOTES[dname]
+    parts = []
+    i = 0
+    n = len(text)
+    while True:
+        j = i
+        if j < n and text[j] == iq:
+            j += 1
+            while True:
+                if j >= n:
+                    return None
+                if text[j] == fq:
+                    if j + 1 < n and text[j + 1] == fq:
+                        j += 2
+                        continue
+                    j += 1
+                    break
+                j += 1
+        else:
+            while j < n and text[j] != ".":
+                j += 1
+        r = ref_lex(dname, text[i:j], kw)
+        if r is None:
+            return None
+        parts.append(r)
+        if j == n:
+            return parts
+        if text[j] != ".":
+            return None
+        i = j + 1
 
 
 def _collapse_pct(s):
@@ -933,20 +1008,27 @@ def _sqlite_live_lex(text):
         c.close()
 
 
-def _sqlite_roundtrip(name):
-    """a schema (attached database), a table, a column and an index, all called `name`"""
-    from sqlalchemy import Column, Index, Integer, MetaData, Table, create_engine, inspect, select
+def _attach(c, name):
+    c.exec_driver_sql("attach database ':memory:' as \"%s\"" % name.replace('"', '""'))
 
+
+def _sqlite_roundtrip(name):
+    """scenario A: an attached schema, a table in it, its column, and an index (on a table of the main
+    schema: tables and indexes share one namespace per schema), all called `name`; insert/select/reflect,
+    then DROP everything.  scenario B (second connection): in the attached schema `name` a table with an
+    index AND a unique constraint called `name`: CREATE INDEX schema.index, reflect, DROP INDEX schema.index,
+    DROP TABLE."""
+    from sqlalchemy import Column, Index, Integer, MetaData, Table, UniqueConstraint, create_engine, inspect, select
+
+    with_schema = name.lower() not in ("main", "temp")  # SQLite's own schema names cannot be attached
     e = create_engine("sqlite://")
     try:
         m = MetaData()
-        with_schema = name.lower() not in ("main", "temp")  # SQLite's own schema names cannot be attached
         t = Table(name, m, Column(name, Integer), Column("zz_other", Integer), schema=name if with_schema else None)
-        # (tables and indexes share one namespace per schema, so the index goes with the schema)
         Table("zz_t2", m, Column("k", Integer), *([Index(name, "k")] if with_schema else []))
         with e.begin() as c:
             if with_schema:
-                c.exec_driver_sql("attach database ':memory:' as \"%s\"" % name.replace('"', '""'))
+                _attach(c, name)
             m.create_all(c)
             c.execute(t.insert().values({name: 7, "zz_other": 8}))
             rows = [tuple(r) for r in c.execute(select(t.c[name], t.c.zz_other))]
@@ -960,11 +1042,41 @@ def _sqlite_roundtrip(name):
             if len(tn) != 1:
                 return [1]
             cols = [x["name"] for x in insp.get_columns(tn[0], schema=sch[0])]
-            sch = sch if with_schema else [tn[0]]
             idx = [(x["name"], x["column_names"]) for x in insp.get_indexes("zz_t2")] if with_schema else [(tn[0], ["k"])]
             if len(cols) != 2 or cols[1] != "zz_other" or len(idx) != 1 or idx[0][1] != ["k"]:
                 return [1]
-            return [0, _S(sch[0]), _S(tn[0]), _S(cols[0]), _S(idx[0][0])]
+            out = [0, _S(sch[0] if with_schema else tn[0]), _S(tn[0]), _S(cols[0]), _S(idx[0][0])]
+            m.drop_all(c)
+            insp = inspect(c)
+            if insp.get_table_names(schema=sch[0]) or insp.get_table_names():
+                return [1]
+    except Exception:
+        return [1]
+    finally:
+        e.dispose()
+    if not with_schema:
+        return out + [out[2]]
+    e = create_engine("sqlite://")
+    try:
+        m = MetaData()
+        ix = Index(name, "k")
+        t3 = Table("zz_t3", m, Column("k", Integer), Column("u", Integer), ix, UniqueConstraint("u", name=name), schema=name)
+        with e.begin() as c:
+            _attach(c, name)
+            m.create_all(c)
+            c.execute(t3.insert().values(k=1, u=2))
+            insp = inspect(c)
+            idx = [(x["name"], x["column_names"]) for x in insp.get_indexes("zz_t3", schema=name)]
+            if len(idx) != 1 or idx[0][1] != ["k"] or len(insp.get_unique_constraints("zz_t3", schema=name)) != 1:
+                return [1]
+            ix.drop(c)
+            insp = inspect(c)
+            if insp.get_indexes("zz_t3", schema=name):
+                return [1]
+            m.drop_all(c)
+            if inspect(c).get_table_names(schema=name):
+                return [1]
+            return out + [_S(idx[0][0])]
     except Exception:
         return [1]
     finally:
@@ -972,18 +1084,26 @@ def _sqlite_roundtrip(name):
 
 
 def _sqlite_constraint_roundtrip(name):
-    """a UNIQUE constraint called `name` (no model: the reflection parses the stored CREATE TABLE text)"""
+    """a UNIQUE constraint called `name` on a table in an attached schema called `name` (no model: the
+    reflection parses the stored CREATE TABLE text)"""
     from sqlalchemy import Column, Integer, MetaData, Table, UniqueConstraint, create_engine, inspect
 
+    with_schema = name.lower() not in ("main", "temp")
+    sch = name if with_schema else None
     e = create_engine("sqlite://")
     try:
         m = MetaData()
-        t = Table("zz_t", m, Column("a", Integer), Column("b", Integer), UniqueConstraint("a", name=name))
+        t = Table("zz_t", m, Column("a", Integer), Column("b", Integer), UniqueConstraint("a", name=name), schema=sch)
         with e.begin() as c:
+            if with_schema:
+                _attach(c, name)
             m.create_all(c)
             c.execute(t.insert().values(a=1, b=2))
-            u = inspect(c).get_unique_constraints("zz_t")
+            u = inspect(c).get_unique_constraints("zz_t", schema=sch)
             if len(u) != 1 or u[0]["column_names"] != ["a"]:
+                return [1]
+            m.drop_all(c)
+            if inspect(c).get_table_names(schema=sch):
                 return [1]
             return [0, [] if u[0]["name"] is None else [_S(u[0]["name"])]]
     except Exception:
@@ -1032,6 +1152,22 @@ def impl(c):
         return _sqlite_roundtrip(_U(t[2]))
     if op == 6:
         return _sqlite_constraint_roundtrip(_U(t[2]))
+    if op in (7, 8):
+        from sqlalchemy import Column, Index, Integer, MetaData, Table
+        from sqlalchemy.schema import CreateIndex, DropIndex
+
+        sch = _U(t[2][0]) if t[2] else None
+        col = Column("k", Integer)
+        tbl = Table(_U(t[3]) if op == 8 else "zz_t", MetaData(), col, schema=sch)
+        idx = Index(_U(t[-1]), col)
+        dialect = _dialects()[d]
+        try:
+            if op == 7:
+                ddl = dialect.ddl_compiler(dialect, None)
+                return [0, _S(ddl._prepared_index_name(idx, include_schema=True)), _S(ddl._prepared_index_name(idx, include_schema=False))]
+            return [0, _S(str(CreateIndex(idx).compile(dialect=dialect))), _S(str(DropIndex(idx).compile(dialect=dialect)))]
+        except IndexError:
+            return [1]
     raise ValueError("bad op")
 
 
@@ -1081,10 +1217,26 @@ def oracle(c, obs):
         name = _U(t[2])
         if not _sqlite_name_ok(name):
             return None
-        if obs != [0] + [_S(name)] * 4:
-            what = "failed" if obs[0] != 0 else "gave back schema/table/column/index %r" % ([_U(x) for x in obs[1:]],)
+        if obs != [0] + [_S(name)] * 5:
+            what = "failed" if obs[0] != 0 else "gave back schema/table/column/index/index-in-schema %r" % ([_U(x) for x in obs[1:]],)
             return "sqlite: create/insert/select/reflect with the name %r %s" % (name, what)
         return None
+    if op == 7:
+        comps = ([_U(t[2][0])] if t[2] else []) + [_U(t[3])]
+        if not all(_representable(x) for x in comps):
+            return None
+        if obs[0] != 0:
+            return "_prepared_index_name raised IndexError for %r on %s" % (comps, dname)
+        text = _U(obs[1])
+        sent = _collapse_pct(text) if dname in _PCT_DIALECTS else text
+        kw = set(measure_sqlite_keywords()) if dname == "sqlite" else set(_dialects()[d].identifier_preparer.reserved_words)
+        got = None if sent is None else ref_lex_path(dname, sent, kw)
+        if got == comps:
+            return None
+        if dname == "oracle" and got is not None and len(got) == len(comps) and all(
+                g == x or (g == _ascii_upper(x) and _ascii_lower(x) == x) for g, x in zip(got, comps)):
+            return None  # case-insensitive components are stored upper case by Oracle
+        return "%s: index name for schema/index %r is rendered %r which the backend reads as %r" % (dname, comps, text, got)
     if op == 6:
         name = _U(t[2])
         if not _sqlite_name_ok(name):
@@ -1105,6 +1257,8 @@ def match_finding(c, what):
         if any("%" in x for x in comps):
             return "C06-percent-unformat"
     if op in (0, 5, 6) and _LEGAL_NL.fullmatch(_U(t[2])):
+        return "C06-trailing-newline-not-quoted"
+    if op == 7 and any(_LEGAL_NL.fullmatch(_U(x)) for x in list(t[2]) + [t[3]]):
         return "C06-trailing-newline-not-quoted"
     if op == 5 and _BINDLIKE.search(_U(t[2])):
         return "C06-bind-pattern-in-name-positional"
